@@ -120,8 +120,17 @@ def Enc.padWidth : Enc → Nat
   | .padding wide => padBytes wide
   | _ => 0
 
-/-- `validate` (abi.rs:405-430), plus the one structural rule enforced while parsing the
-attributes (`arg0` only on parameters of at most two bytes).  Note that `bs=0` is accepted. -/
+/-- the attribute rules `string_from_attrs` enforces while the signature is parsed: the block size
+is nonzero, `furibug` is not combined with `nulless` (the quirk appends bytes after the string's
+terminator, and a nulless string has none) -/
+def Enc.strAttrsOk : Enc → Bool
+  | .str (.toBlobEnd bs) _ _ => bs != 0
+  | .str (.pascal bs) _ _ => bs != 0
+  | .str (.fixed _ nulless) _ furibug => !(nulless && furibug)
+  | _ => true
+
+/-- `validate` (abi.rs), plus the structural rules enforced while parsing the attributes (`arg0`
+only on parameters of at most two bytes; `Enc.strAttrsOk`). -/
 def validAbi (abi : Abi) : Bool :=
   let oCount := (abi.filter (· == .jumpOffset)).length
   let tCount := (abi.filter (· == .jumpTime)).length
@@ -129,14 +138,8 @@ def validAbi (abi : Abi) : Bool :=
   && !(tCount == 1 && oCount == 0)
   && !((abi.drop 1).any Enc.isArg0)
   && !((abi.reverse.drop 1).any fun e => match e with | .str (.toBlobEnd _) _ _ => true | _ => false)
-  && abi.all fun e => match e with | .int .w4 _ true _ => false | _ => true
-
-/-- no `bs=0`: the validator does not demand it, the encoder needs it -/
-def noZeroBlock (abi : Abi) : Bool :=
-  abi.all fun e => match e with
-    | .str (.toBlobEnd 0) _ _ => false
-    | .str (.pascal 0) _ _ => false
-    | _ => true
+  && (abi.all fun e => match e with | .int .w4 _ true _ => false | _ => true)
+  && abi.all Enc.strAttrsOk
 
 /-! ## arguments -/
 
@@ -210,6 +213,16 @@ def checkCall (abi : Abi) (args : List Arg) : Outcome Unit :=
 
 /-! ## encoding -/
 
+/-- `T::try_from(value)` for the field types `i8 u8 i16 u16` (4-byte fields take every `i32`) -/
+def fitsInt (w : IntW) (signed : Bool) (v : Int) : Bool :=
+  match w, signed with
+  | .w1, true => decide (-128 ≤ v) && decide (v < 128)
+  | .w1, false => decide (0 ≤ v) && decide (v < 256)
+  | .w2, true => decide (-32768 ≤ v) && decide (v < 32768)
+  | .w2, false => decide (0 ≤ v) && decide (v < 65536)
+  | .w4, _ => i32Range v
+
+
 def expectInt : Arg → Outcome Int
   | .int v _ => .ok v
   | _ => .panic "expect_int"
@@ -271,10 +284,12 @@ def encodeOne (st : EncState) (e : Enc) (a : Arg) : Outcome (Bytes × EncState) 
     match expectInt a with
     | .ok v => .ok (leBytes 4 (wrapTo 4 v), st)
     | .err c => .err c | .panic p => .panic p
-  | .int w _ false _ =>
-    -- `write_i16(x as _)` etc.: the value is cast, not checked
+  | .int w signed false _ =>
+    -- 1- and 2-byte fields: `fit_int_arg` (`TryFrom`); 4-byte fields: `write_i32(x)` / `write_u32(x as _)`
     match expectInt a with
-    | .ok v => .ok (leBytes w.bytes (wrapTo w.bytes v), st)
+    | .ok v =>
+      if w != .w4 && !fitsInt w signed v then .err "integer argument does not fit"
+      else .ok (leBytes w.bytes (wrapTo w.bytes v), st)
     | .err c => .err c | .panic p => .panic p
   | .float _ =>
     match expectFloat a with
@@ -293,26 +308,29 @@ structure EncOut where
   st : EncState
 deriving Repr, DecidableEq
 
-/-- The `for enc in arg_encodings_iter` loop.  The Rust loop carries `(current_param_mask_bit,
-param_mask)`; here the mask of the remaining parameters is built on the way back
-(`bit + 2 * rest`), which is the same number (`mask_bits_positions`). -/
-def encLoop : Abi → List Arg → EncState → Outcome EncOut
-  | [], _, st => .ok ⟨[], 0, [], st⟩
-  | e :: es, args, st =>
+/-- The `for enc in arg_encodings_iter` loop; `k` = number of mask bits already used
+(`current_param_mask_bit = 1 << k` as a `u16`, i.e. 0 once `k ≥ 16`).  The Rust loop carries
+`(current_param_mask_bit, param_mask)`; here the mask of the remaining parameters is built on the
+way back (`bit + 2 * rest`), which is the same number (`mask_bits_positions`). -/
+def encLoop : Nat → Abi → List Arg → EncState → Outcome EncOut
+  | _, [], _, st => .ok ⟨[], 0, [], st⟩
+  | k, e :: es, args, st =>
     if e.isPadding then
       -- `if let ArgEncoding::Padding { size } = enc { write zeros; continue; }`: no argument is consumed
-      match encLoop es args st with
+      match encLoop k es args st with
       | .ok o => .ok { o with blob := zeros e.padWidth ++ o.blob }
       | r => r
     else
       match args with
       | [] => .panic "function arity already checked"
       | a :: as =>
+        -- the mask has one bit per parameter; a register after the bits ran out cannot be marked
+        if a.isReg && decide (16 ≤ k) then .err "too many arguments in instruction" else
         let warn := e.alwaysImmediate && a.isReg
         let bit := if a.isReg && !e.alwaysImmediate then 1 else 0
         match encodeOne st e a with
         | .ok (bytes, st1) =>
-          match encLoop es as st1 with
+          match encLoop (k + 1) es as st1 with
           | .ok o => .ok ⟨bytes ++ o.blob, bit + 2 * o.mask,
               (if warn then ["non-constant expression in immediate argument"] else []) ++ o.warnings, o.st⟩
           | r => r
@@ -322,15 +340,14 @@ def encLoop : Abi → List Arg → EncState → Outcome EncOut
 /-- the part of `encode_args` after the `arg0` handling: loop, then `RawInstr` (mask is a `u16`) -/
 def encodePlain (st : EncState) (es : Abi) (args : List Arg) (arg0 : Option Int) :
     Outcome (Raw × List String × EncState) :=
-  match encLoop es args st with
+  match encLoop 0 es args st with
   | .ok o => .ok (⟨o.blob, o.mask % 65536, arg0⟩, o.warnings, o.st)
   | .err c => .err c
   | .panic p => .panic p
 
 /-- `encode_args` for `LowerArgs::Known`, no explicit `@arg0`/`@mask`.  The `arg0` parameter is
-consumed before the loop and does *not* advance the mask bit; its value is cast to `i16`.
-(The "too many arguments" check after the loop can never fire: `trailing_zeros` of a `u16` is at
-most 16; see `reg_flag_lost_beyond_16`.) -/
+consumed before the loop and does *not* advance the mask bit; its value must fit the `i16` header
+field (`fit_int_arg`). -/
 def encodeArgs (hasRegs : Bool) (st : EncState) (abi : Abi) (args : List Arg) :
     Outcome (Raw × List String × EncState) :=
   if !hasRegs && args.any Arg.isReg then .err "non-constant expression in language without registers" else
@@ -343,7 +360,9 @@ def encodeArgs (hasRegs : Bool) (st : EncState) (abi : Abi) (args : List Arg) :
       | a :: as =>
         if a.isReg then .panic "checked above" else
         match expectInt a with
-        | .ok v => encodePlain st es as (some (toSigned 2 (wrapTo 2 v)))
+        | .ok v =>
+          if !fitsInt .w2 true v then .err "integer argument does not fit"
+          else encodePlain st es as (some v)
         | .err c => .err c
         | .panic p => .panic p
     else encodePlain st (e :: es) args none
@@ -484,25 +503,15 @@ def compileSeq (hasRegs : Bool) : EncState → List (Abi × List Arg) → Outcom
 
 /-! ## `ArgsOk`: the argument lists the property quantifies over -/
 
-def fitsInt (w : IntW) (signed : Bool) (v : Int) : Bool :=
-  match w, signed with
-  | .w1, true => decide (-128 ≤ v) && decide (v < 128)
-  | .w1, false => decide (0 ≤ v) && decide (v < 256)
-  | .w2, true => decide (-32768 ≤ v) && decide (v < 32768)
-  | .w2, false => decide (0 ≤ v) && decide (v < 65536)
-  | .w4, _ => i32Range v
-
 /-- A string argument the property quantifies over: NUL-free; in a fixed buffer it fits together
-with its NUL and the pending furigana bytes; block sizes are positive; a length-prefixed string
-stays below 2^32 bytes.  `nulless` + `furibug` with pending furigana bytes is excluded: the bytes
-would follow the text without a NUL (`C12.furibug_after_nulless_changes_text`). -/
+with its NUL and the pending furigana bytes; a length-prefixed string stays below 2^32 bytes. -/
 def strLayoutOk (st : EncState) (size : StrSize) (furibug : Bool) (s : Bytes) : Bool :=
   let extra := if furibug then (st.getD []).length else 0
   !s.contains 0 &&
   match size with
-  | .fixed len nulless => decide (s.length + (if nulless then 0 else 1) + extra ≤ len) && !(nulless && extra != 0)
-  | .toBlobEnd bs => decide (0 < bs)
-  | .pascal bs => decide (0 < bs) && decide (s.length + 1 + extra + bs < 4294967296)
+  | .fixed len nulless => decide (s.length + (if nulless then 0 else 1) + extra ≤ len)
+  | .toBlobEnd _ => true
+  | .pascal bs => decide (s.length + 1 + extra + bs < 4294967296)
 
 def argOk (st : EncState) : Enc → Arg → Bool
   | .int w signed false imm, .int v reg => fitsInt w signed v && i32Range v && !(reg && imm)
@@ -529,7 +538,7 @@ def argsOkLoop : EncState → Abi → List Arg → Bool
 
 /-- Arity, types, integers within the declared width and signedness, registers only where the
 encoding contributes to the mask and is not immediate, strings NUL-free and fitting.  An `arg0`
-parameter takes an immediate that fits its declared width and the 16-bit header field; with an
+parameter takes an immediate that fits the 16-bit header field it is stored in; with an
 `arg0` parameter no argument may be a register (only timelines have `arg0`, and they have no
 registers; `arg0_shifts_mask` shows what happens otherwise). -/
 def ArgsOk (st : EncState) (abi : Abi) (args : List Arg) : Bool :=
@@ -538,8 +547,8 @@ def ArgsOk (st : EncState) (abi : Abi) (args : List Arg) : Bool :=
   | e :: es =>
     if e.isArg0 then
       match e, args with
-      | .int w signed _ _, .int v false :: as =>
-        fitsInt w signed v && fitsInt .w2 true v && argsOkLoop st es as && !as.any Arg.isReg
+      | .int _ _ _ _, .int v false :: as =>
+        fitsInt .w2 true v && argsOkLoop st es as && !as.any Arg.isReg
       | _, _ => false
     else argsOkLoop st (e :: es) args
 
